@@ -34,7 +34,7 @@ REQUIRED_COUNTERS = ["kind.roundtrip", "kind.file", "kind.nonlp", "check.writer.
 
 def plan(tier):
     if tier == "thorough":
-        return [{"variant": "plain", "workers": 16, "cases": 2500}]
+        return [{"variant": "plain", "workers": 16, "cases": 6000}]
     return [{"variant": "plain", "workers": 8, "cases": 150}]
 
 
